@@ -47,6 +47,8 @@ vars == <<log, committed, up, own, nextAuth, acked, usedCmds, step>>
 view == <<log, committed, up, own, nextAuth, {[i |-> a.i, e |-> a.e] : a \in acked}, usedCmds>>
 
 N == Cardinality(Node)
+\* validateRecoveryTopology: a write quorum must be a majority, so that any two quorums intersect
+ASSUME QuorumIntersects == Q \in 1..N /\ 2 * Q > N
 NULL == [none |-> TRUE]
 Prefix(s, i) == SubSeq(s, 1, i)
 LEO(n) == Len(log[n])
